@@ -14,8 +14,10 @@ Alphabet == { [t |-> "x", kind |-> "", a |-> 0, rel |-> "", b |-> 0, c |-> 1], T
               T("or", "", 0), T("else", "", 0), T("fi", "", 0) }
 
 VARIABLE toks
-Init == toks \in UNION { [1..n -> Alphabet] : n \in 0..N }
-Next == UNCHANGED toks
+\* every list over Alphabet of length <= N is one state: the state graph is the tree of lists
+\* (the set of all lists at once exceeds TLC's set-size limit from N = 6 on)
+Init == toks = <<>>
+Next == Len(toks) < N /\ \E a \in Alphabet : toks' = Append(toks, a)
 Spec == Init /\ [][Next]_toks
 
 AgreeInv == Agree(toks)
